@@ -329,6 +329,18 @@ def generate(prop, seed, tier="quick", fault_free=False):
                 nd["prehistory"] = x.choice([600, 1500])  # volume: a long-lived process
             # logging configured by the application of that node (root logger, formatting handler)
             nd["log_level"] = x.choice([None, None, "WARNING", "INFO", "DEBUG", "DEBUG"])
+        # threads: some nodes hash a few of their queries once more, concurrently
+        for ni, nd in enumerate(nodes[:-1]):
+            if x.random() < 0.35:
+                mine = [op for op in ops if op["op"] == "build" and op["node"] % (len(nodes) - 1) == ni
+                        and op.get("variant") != "long_chain" and not op.get("pad_to")]
+                if len(mine) >= 2:
+                    nd["mt_seed"] = x.randrange(10 ** 6)
+                    nd["mt_p"] = x.choice([0.05, 0.2, 0.5])
+                    x.shuffle(mine)
+                    for gi in range(min(3, len(mine) // 2)):
+                        for op in mine[2 * gi:2 * gi + x.choice([2, 2, 3])]:
+                            op["mt"] = gi
         for op in ops:
             if op.get("variant") not in ("long_chain",) and not op.get("pad_to") and x.random() < 0.1:
                 # crash point: the first hash of this query is hit by an asynchronous exception
@@ -347,7 +359,8 @@ def run_node(node, builds):
     env.pop("VERIF_HASHSEED", None)
     job = {"src": func_adl_src(), "epoch": node["epoch"], "prehistory": node["prehistory"],
            "import_order": node["import_order"], "builds": builds, "simid": node.get("simid"),
-           "log_level": node.get("log_level")}
+           "log_level": node.get("log_level"), "mt_seed": node.get("mt_seed", 0),
+           "mt_p": node.get("mt_p", 0.2)}
     flags = ["-O"] if sys.flags.optimize == 1 else []  # nodes run under this process's options
     p = subprocess.run([sys.executable] + flags + [NODE_SCRIPT], input=json.dumps(job), env=env,
                        capture_output=True, text=True, timeout=120)
@@ -417,6 +430,14 @@ def execute(case):
                                                                 "error": r["error"][:200],
                                                                 "build": _brief(b)}}
                 continue
+            if "mt_hash" in r:
+                stat("fault_hashed_concurrently_by_threads")
+                if r.get("mt_switches"):
+                    stat("thread_switches_inside_the_library", r["mt_switches"])
+                if r["mt_hash"] != r["hash"] and viol is None:
+                    viol = {"class": "C20/split", "detail": {
+                        "kind": "threads", "build": _brief(b), "alone": r["hash"],
+                        "with_another_thread_hashing": r["mt_hash"]}}
             if r.get("crashed") is not None:
                 stat("fault_crash_point_armed")
                 if r["crashed"]:
